@@ -88,6 +88,7 @@ fn main() {
         "robust-run" => {
             // robust-run <bases.ndjson> <trace.ndjson> [first-base]
             let bases = read_cases(&a[2]);
+            robust::start_watchdog(format!("{}.hang", a[3]));
             let mut w = BufWriter::new(File::create(&a[3]).unwrap());
             let mut out = mux::Out { w: &mut w, events: 0 };
             let (mut total, mut panics, mut phases) = (0u64, 0u64, [0u64; 4]);
